@@ -1035,4 +1035,46 @@ example : Holds C10Witness.cB (.known .volume)
   (C10_fit_conserves_beyond_u32 C09_bundled_sound C10Witness.idOrd C10Witness.idOrd_isPerm C10Witness.bigCups (.known .volume)
     (C10_bundled_linear _ (by decide))).1
 
+/-- **`fit` never writes a saturated fraction** — for EVERY converter (no invariant needed), quantity, group and hash
+    order.  `Number.NotSaturated` (Lemmas/FractionSat.lean): a plain number, or a fraction whose written whole part is
+    the integral part of, or the rounding of, the value it stands for (`whole - 1/2 ≤ value < whole + 1`) with the
+    value below `u32::MAX`.
+    * If the numbers of a quantity (both ends of a range) are not saturated, neither are those of
+      `ScaledQuantity::fit` of it, whether it returns `Ok` or an error;
+    * if the numbers of everything a group yields are not saturated, neither are those of everything
+      `GroupedQuantity::fit` of it yields.
+    In particular a group of plain numbers — what `add` of plain numbers builds — is fitted to plain numbers and
+    honest fractions only, however large its totals are: with `C10_fit_conserves_beyond_u32`, what is WRITTEN
+    (`whole num/den`) is within one unit of the conserved total.  Proof: the only constructor of fractions on the
+    fit path is `Converter::approx` (`fnum_fit`, `fnum_group_fit`: `tryFraction`, `fracCandidates`/`min_by`,
+    `fitFractionApply`, `convertImpl`), and `C10_new_approx_no_saturation`. -/
+theorem C10_fit_never_saturates (c : Converter Rat) :
+    (∀ q : SQuantity Rat, q.value.AllNum Number.NotSaturated → (Cook.fit c q).1.value.AllNum Number.NotSaturated) ∧
+    (∀ (ord : MapOrder Rat) (g : GroupedQuantity Rat),
+      (∀ q ∈ g.iter ord, q.value.AllNum Number.NotSaturated) →
+      ∀ q ∈ (g.fit c).1.iter ord, q.value.AllNum Number.NotSaturated) :=
+  ⟨fun q hq => fnum_fit (fsat_approxClosed c) q hq, fun ord g hg => fnum_group_fit (fsat_approxClosed c) ord g hg⟩
+
+open C10Witness in
+/-- the hypothesis is satisfiable and the conclusion speaks about fractions: with the bundled converter
+    `1.25 cup + 1.25 cup` (plain numbers) is fitted to `2 1/2 c`, `1073741823.875 cup` twice to the rounded
+    `2147483648 (-0.25) c`; the group of `bigCups` consists of plain numbers -/
+example : ((GroupedQuantity.fit cB (addAll cB empty [num (5/4) (some cupText), num (5/4) (some cupText)])).1.iter idOrd) =
+      [⟨.number (.fraction 2 1 2 0), some ['c']⟩] ∧
+    ((GroupedQuantity.fit cB (addAll cB empty
+        [num (8589934591/8) (some cupText), num (8589934591/8) (some cupText)])).1.iter idOrd) =
+      [⟨.number (.fraction 2147483648 0 1 (-1/4)), some ['c']⟩] ∧
+    ((addAll cB empty bigCups).iter idOrd) = [⟨.number (.regular (8589934593/2)), some cupText⟩] := by
+  decide +kernel
+
+example : ∀ q ∈ (addAll C10Witness.cB empty C10Witness.bigCups).iter C10Witness.idOrd,
+    q.value.AllNum Number.NotSaturated := by
+  have h : ((addAll C10Witness.cB empty C10Witness.bigCups).iter C10Witness.idOrd) =
+      [⟨.number (.regular (8589934593/2)), some C10Witness.cupText⟩] := by decide +kernel
+  rw [h]
+  intro q hq
+  simp only [List.mem_singleton] at hq
+  subst hq
+  trivial
+
 end Cook
